@@ -90,7 +90,8 @@ EMIT_STRIDE_B = (1024, 64)
 
 def core_check(pid: str, *, f_filter=None, cfgs=("A",), quick_stride=8, quick_keep=20,
                thorough_stride=1, thorough_keep=8, level="model_checking", extra=None,
-               sessions_quick=0, sessions_thorough=0, run_filter=None, annotate=None, keep_b=(6, 2), overrides=None):
+               sessions_quick=0, sessions_thorough=0, run_filter=None, annotate=None, keep_b=(6, 2), overrides=None,
+               session_filter=None):
     chk = Check(pid, level)
     if chk.replay:
         return replay_file(chk)
@@ -129,7 +130,8 @@ def core_check(pid: str, *, f_filter=None, cfgs=("A",), quick_stride=8, quick_ke
                     replay_runs(chk, runs)
                     ns = sessions_quick if chk.quick else sessions_thorough
                     if ns and c2 == cfgs[0]:
-                        sub = [dict(r, id=r["id"] + "@session") for r in runs[:: max(1, len(runs) // ns)][:ns]]
+                        cand = [r for r in runs if session_filter(r)] if session_filter else runs
+                        sub = [dict(r, id=r["id"] + "@session") for r in cand[:: max(1, len(cand) // ns)][:ns]]
                         replay_runs(chk, sub, driver="session")
             finally:
                 tlc.cleanup(res)
